@@ -44,6 +44,11 @@ def parseItem (s : String) : Item :=
 def parseTrace (s : String) : List Item := if s == "-" then [] else (s.splitOn ",").map parseItem
 def parseProg (s : String) : List (List String) := (s.splitOn "|").map fun t => if t == "-" then [] else t.splitOn ","
 
+/-- is the memory ordering the implementation passed at least as strong as the one the model requires? -/
+def ordGe (given required : String) : Bool :=
+  given == required || given == "SeqCst" || required == "Relaxed" ||
+  (given == "AcqRel" && (required == "Acquire" || required == "Release"))
+
 abbrev Mem := List (String × UInt64)
 def Mem.get (m : Mem) (l : String) : UInt64 := ((m.find? (·.1 == l)).map (·.2)).getD 0
 def Mem.set (m : Mem) (l : String) (v : UInt64) : Mem := (l, v) :: m.filter (·.1 != l)
@@ -105,27 +110,27 @@ def aStep (s : ASt) (e : Ev) : Except String ASt :=
         let n := opName op
         let a := parseIntArg (opArg op)
         if n == "get" then
-          chk (e.k == "L" && e.ord == "Relaxed" && e.res == s.mem) s!"get: expected load Relaxed -> {hexStr s.mem}" (fin s.mem (hexStr s.mem) false)
+          chk (e.k == "L" && ordGe e.ord "Relaxed" && e.res == s.mem) s!"get: expected load Relaxed -> {hexStr s.mem}" (fin s.mem (hexStr s.mem) false)
         else if n == "set" || n == "reset" then
           let v := if n == "reset" then 0 else a
           let bits := if s.float then f64OfInt v else u64OfInt v
-          chk (e.k == "S" && e.ord == "Relaxed" && e.a == bits) s!"set: expected store Relaxed {hexStr bits}" (fin bits "" true)
+          chk (e.k == "S" && ordGe e.ord "Relaxed" && e.a == bits) s!"set: expected store Relaxed {hexStr bits}" (fin bits "" true)
         else if s.float then
           match floatDelta op with
           | none => .error s!"unknown op {op}"
           | some d =>
-            chk (e.k == "L" && e.ord == "Acquire" && e.res == s.mem) s!"float add: expected load Acquire -> {hexStr s.mem}"
+            chk (e.k == "L" && ordGe e.ord "Acquire" && e.res == s.mem) s!"float add: expected load Acquire -> {hexStr s.mem}"
               (.ok { s with ths := s.ths.set e.tid { th with pc := some (.cas s.mem d) } })
         else
           let d : Int := if n == "inc" || n == "dec" then 1 else a
           let sub := n == "dec" || n == "sub"
           let want := if sub then "U" else "A"
           let newv := if sub then s.mem - u64OfInt d else s.mem + u64OfInt d
-          chk (e.k == want && e.ord == "Relaxed" && e.a == u64OfInt d && e.res == s.mem)
+          chk (e.k == want && ordGe e.ord "Relaxed" && e.a == u64OfInt d && e.res == s.mem)
             s!"int {n}: expected {want} Relaxed {hexStr (u64OfInt d)} -> {hexStr s.mem}" (fin newv "" true)
       | .cas cur d =>
         let newv := f64Add cur d
-        chk (e.k == "C" && e.ord == "Release" && e.a == cur && e.b == newv) s!"float add: expected cas Release {hexStr cur} -> {hexStr newv}" <|
+        chk (e.k == "C" && ordGe e.ord "Release" && e.a == cur && e.b == newv) s!"float add: expected cas Release {hexStr cur} -> {hexStr newv}" <|
           if e.ok then
             chk (s.mem == cur && e.res == cur) "cas succeeded although the cell no longer holds the loaded value" (fin newv "" true)
           else
@@ -255,7 +260,7 @@ def vStep (s : VSt) (e : Ev) : Except String VSt :=
         if !(e.k == "x" && e.loc == "lk") then .error "expected write unlock" else
         .ok (setTh { s with lockW := none } { th with pc := none, retv := some res })
       | .incChild c =>
-        if !(e.k == "A" && e.ord == "Relaxed" && e.a == 1) then .error "inc: expected fetch_add Relaxed 1" else
+        if !(e.k == "A" && ordGe e.ord "Relaxed" && e.a == 1) then .error "inc: expected fetch_add Relaxed 1" else
         match s.binding.find? (·.1 == e.loc) with
         | some (_, c') => if c' != c then .error s!"inc on {e.loc}, which is child {c'}, but the handle is child {c}" else
             if e.res != s.vals.getD c 0 then .error "inc: wrong old value" else
@@ -397,7 +402,7 @@ def hStep (s : HSt) (e : Ev) : Except String HSt :=
           if pc.todo.isEmpty then { s with ths := s.ths.set e.tid { th with pc := none, retv := some rv } }
           else { s with ths := s.ths.set e.tid { th with pc := some pc } }
         let expect (k loc ord : String) (cont : Except String HSt) : Except String HSt :=
-          if e.k == k && e.loc == loc && (ord == "" || e.ord == ord) then cont
+          if e.k == k && e.loc == loc && (ord == "" || ordGe e.ord ord) then cont
           else .error s!"{opv}: expected {k} {loc} {ord}, got {e.k} {e.loc} {e.ord}"
         let old (loc : String) (cont : Except String HSt) : Except String HSt :=
           if e.res == s.mem.get loc then cont else .error s!"{opv}: {loc} holds {hexStr (s.mem.get loc)} in the model, the implementation saw {hexStr e.res}"
